@@ -58,8 +58,10 @@ class Ctx:
         self.bins[key] = out
         return out
 
-    def record(self, profile, outdir=None, shards=8, extra=(), race=False, env=None, timeout=1800, cmd="record"):
+    def record(self, profile, outdir=None, shards=None, extra=(), race=False, env=None, timeout=1800, cmd="record"):
         """Run a recorder profile on the real library; returns its stats dict."""
+        if shards is None:      # TLC's JSON reader holds a whole file in memory: keep thorough-tier files small
+            shards = 24 if self.tier == "thorough" else 8
         binp = self.build(cmd, race=race)
         outdir = outdir or os.path.join(self.work, "tr-" + profile)
         os.makedirs(outdir, exist_ok=True)
